@@ -44,7 +44,8 @@ inline size_t gen_parse_input(Src& s, Ctx& ctx, size_t n_aux, unsigned& placemen
             return b;
         };
         try {
-            switch (s.range(0, 6)) {
+            bool raw_ready = false;
+            switch (s.range(0, 7)) {
                 case 0: { ICMPv6* q = new ICMPv6((ICMPv6::Types)(s.boolean() ? 134 : 135)); p.reset(q); cls = "ICMPv6";
                           for (unsigned i = 0; i < nopt; ++i) { std::vector<uint8_t> b = body(1); q->add_option(ICMPv6::option((uint8_t)s.range(0, 40), b.begin(), b.end())); } break; }
                 case 1: { DHCPv6* q = new DHCPv6(); p.reset(q); cls = "DHCPv6";
@@ -57,12 +58,65 @@ inline size_t gen_parse_input(Src& s, Ctx& ctx, size_t n_aux, unsigned& placemen
                           for (unsigned i = 0; i < nopt; ++i) { std::vector<uint8_t> b = s.bytes(s.range(0, 12)); q->add_option(IP::option(IP::option_identifier((uint8_t)s.u8()), b.begin(), b.end())); } break; }
                 case 5: { DHCP* q = new DHCP(); p.reset(q); cls = "DHCP";
                           for (unsigned i = 0; i < nopt; ++i) { std::vector<uint8_t> b = body(0); q->add_option(DHCP::option((uint8_t)s.range(1, 82), b.begin(), b.end())); } break; }
+                case 7: {
+                    // IPv6 + hop-by-hop options header written by hand: TLV walks (Pad1, PadN, Jumbo Payload, Router Alert, unknown
+                    // types, lengths that overrun the header), a payload length field of 0 (jumbogram rule) / exact / off by one,
+                    // an option that ends exactly where the header ends, and a buffer that stops a few octets early
+                    cls = "IPv6";
+                    std::vector<uint8_t> h(40, 0);
+                    h[0] = 0x60; h[6] = 0; h[7] = 64; h[8] = 0xfe; h[9] = 0x80; h[23] = 1; h[24] = 0xfe; h[25] = 0x80; h[39] = 2;
+                    unsigned L = (unsigned)s.range(0, 2);
+                    size_t extsz = (L + 1) * 8;
+                    std::vector<uint8_t> ext(extsz, 0);
+                    static const uint8_t NH[6] = {59, 17, 6, 58, 0, 43};
+                    ext[0] = NH[s.pick(6)];
+                    ext[1] = (uint8_t)(s.chance(12) ? L + 1 : L);
+                    size_t pos = 2;
+                    bool jumbo = false;
+                    while (pos < extsz) {
+                        size_t room = extsz - pos;
+                        unsigned kind = (unsigned)s.range(0, 6);
+                        if (kind == 5 && room >= 6 && !jumbo) { while (extsz - pos > 6) ext[pos++] = 0; kind = 2; room = 6; }  // jumbo option flush with the end
+                        if (kind == 0 || room < 2) { ext[pos++] = 0; continue; }
+                        if (kind == 1) { size_t n = std::min<size_t>(room - 2, (size_t)s.range(0, 5)); ext[pos] = 1; ext[pos + 1] = (uint8_t)n; pos += 2 + n; continue; }
+                        if (kind == 2 && room >= 6) {
+                            ext[pos] = 0xc2; ext[pos + 1] = (uint8_t)(s.chance(15) ? s.range(0, 8) : 4);
+                            std::vector<uint8_t> v = s.bytes(4);
+                            if (s.chance(50)) { v[0] = 0; v[1] = 0; v[2] = 0; v[3] = (uint8_t)s.range(0, 80); }
+                            std::copy(v.begin(), v.end(), ext.begin() + pos + 2);
+                            pos += 6; jumbo = true; continue;
+                        }
+                        if (kind == 2 && room < 6) {   // a Jumbo Payload option whose value does not fit into what is left of the header
+                            ext[pos] = 0xc2; ext[pos + 1] = 4;
+                            for (size_t k = pos + 2; k < extsz; ++k) ext[k] = (uint8_t)s.u8();
+                            pos = extsz; jumbo = true; continue;
+                        }
+                        if (kind == 3 && room >= 4) { ext[pos] = 5; ext[pos + 1] = 2; ext[pos + 2] = 0; ext[pos + 3] = (uint8_t)s.range(0, 3); pos += 4; continue; }
+                        ext[pos] = (uint8_t)s.u8(); ext[pos + 1] = (uint8_t)(s.chance(70) ? std::min<size_t>(room - 2, (size_t)s.range(0, 6)) : s.u8());   // unknown option, possibly overrunning
+                        pos += 2 + std::min<size_t>(room - 2, ext[pos + 1]);
+                    }
+                    std::vector<uint8_t> pay = s.bytes(s.chance(35) ? 0 : s.range(0, 12));
+                    size_t exact = ext.size() + pay.size();
+                    static const int D[6] = {0, 0, 1, -1, 8, -8};
+                    unsigned pl = (unsigned)s.range(0, 7);
+                    size_t plen = pl < 3 ? 0 : (pl == 7 ? 0xffff : (size_t)std::max<long>(0, (long)exact + D[pl - 1]));
+                    h[4] = (uint8_t)(plen >> 8); h[5] = (uint8_t)plen;
+                    data = h;
+                    data.insert(data.end(), ext.begin(), ext.end());
+                    data.insert(data.end(), pay.begin(), pay.end());
+                    if (s.boolean()) { size_t cut = std::min<size_t>(data.size() - 40, (size_t)s.range(0, 9)); data.resize(data.size() - cut); }
+                    raw_ready = true;
+                    ctx.label("ipv6-hop-by-hop-tlv-input");
+                    break;
+                }
                 default: { PPPoE* q = new PPPoE(); q->code(s.boolean() ? 9 : 7); p.reset(q); cls = "PPPoE";
                           static const uint16_t TG[] = {0x0101, 0x0102, 0x0103, 0x0104, 0x0105, 0x0110, 0x0201, 0x0202, 0x0203, 0};
                           for (unsigned i = 0; i < nopt; ++i) { std::vector<uint8_t> b = body(0); q->add_tag(PPPoE::tag((PPPoE::TagTypes)Endian::host_to_be(TG[s.pick(10)]), b.begin(), b.end())); } break; }
             }
-            enforce_capacity(*p, ctx, scratch_prog);
-            data = p->serialize();
+            if (!raw_ready) {
+                enforce_capacity(*p, ctx, scratch_prog);
+                data = p->serialize();
+            }
         } catch (const std::exception&) {
             data.clear();
         }
